@@ -15,10 +15,10 @@ def gen_case(r, idx, tmpdir):
     nb = len(cfg["boards"])
     present = [i for i in range(nb) if r.chance(3, 4)]
     tree = simgen.gen_tree(r, cfg, ctr, present=present, maxfan=3)
-    kind = r.choice(["plain", "again", "again", "shrunk"])
+    kind = r.choice(["plain", "again", "again", "shrunk", "restart"])
     case = {"idx": idx, "kind": kind, "cfg": cfg, "trees": [tree], "changes": [], "final": 0, "dir": os.path.join(tmpdir, "c%d" % idx),
             "featmode": r.below(3), "truth": simgen.truth_of(tree, cfg)}
-    if kind == "shrunk":
+    if kind in ("shrunk", "restart"):
         t2 = copy.deepcopy(tree)
         for _ in range(r.range(1, 2)):
             nodes = [(p, n) for p, n in tree_nodes(t2) if p]
@@ -30,6 +30,13 @@ def gen_case(r, idx, tmpdir):
     for i, a in cfg["isignals"]: hl.append(("signal", i, "hl signal sg%d a%d" % (i, a)))
     for i, a in cfg["iperiphs"]: hl.append(("periph", i, "hl periph pe%d a%d" % (i, a)))
     case["hl"] = hl
+    if kind == "restart":
+        # a second session in the same process: the first ends with a command whose message is still in the send buffer (no flush,
+        # no auto-flush); the second starts on the shrunk bus and must apply the configuration exactly like a first start
+        cand = [(bi, p) for bi, b in enumerate(cfg["boards"]) if bi in case["truth"] and not (b["uid"][0] & 0x10) for p in b["points"] if p["num"] <= 127 and p["aspects"][0][1] <= 127]
+        case["pending"] = None
+        if cand:
+            bi, p = r.choice(cand); case["pending"] = "hlnf point pt%d a%d" % (p["id"], p["aspects"][0][0])
     return case
 
 def script_of(case):
@@ -37,7 +44,9 @@ def script_of(case):
     for ti, t in enumerate(case["trees"]): L += simgen.node_lines(t, ti)
     L += ["sim_opt featmode %d" % case["featmode"], "simstart 0 %s 0" % case["dir"], "mark dump0", "sim_dump"]
     for k, (_, _, cmd) in enumerate(case["hl"]): L += ["mark hl%d" % k, cmd]
-    if case["kind"] != "plain":
+    if case["kind"] == "restart":
+        L += ["mark pend"] + ([case["pending"]] if case["pending"] else []) + ["stop", "sim_tree 1", "mark start2", "simstart 0 %s 0" % case["dir"], "mark dump2", "sim_dump"]
+    elif case["kind"] != "plain":
         L += ["mark reset"] + (["sim_tree 1"] if case["kind"] == "shrunk" else []) + ["sysreset", "mark dumpR", "sim_dump"]
     L += ["mark stop", "stop"]
     return L
@@ -148,9 +157,29 @@ def judge(case, lines):
         for bi in range(len(case["cfg"]["boards"])):
             if tab.get(bi) != case["truth2"].get(bi):
                 bad.append(("reset.stale-connected" if bi in stale else "startup", "after reset: board b%d table %r expected %r" % (bi, tab.get(bi), case["truth2"].get(bi))))
+    if case["kind"] == "restart":
+        s2 = sec.get("start2", [])
+        if "start 0" not in s2: bad.append(("restart", "second start did not return 0: %r" % [l for l in s2 if l.startswith("start")]))
+        t2 = [l.split() for l in s2 if l.startswith("t ")]
+        if [t[1:] for t in t2[:3]] != [["-", "04", "-"], ["-", "01", "-"], ["-", "01", "-"]]:
+            bad.append(("restart.stale-send-buffer" if t2 and t2[0][2] in INIT_TYPES else "restart", "second session does not begin with the probe: %r" % t2[:3]))
+        else:
+            bad += [("restart" if k == "startup" else k, w) for k, w in judge_phase(case, t2[3:], case["truth2"], hl_lines, "second start")]
+        tab = C15.board_table(sec.get("dump2", []))
+        for bi in range(len(case["cfg"]["boards"])):
+            if tab.get(bi) != case["truth2"].get(bi): bad.append(("restart", "after the second start: board b%d table %r expected %r" % (bi, tab.get(bi), case["truth2"].get(bi))))
     for l in lines:
         if l.startswith(("t-badcrc", "t-malformed", "sim-quiesce-timeout", "rx-timeout", "unknown-command")): bad.append(("harness", l))
     return bad
+
+def canon(case, lines):
+    """the model has no send buffer: the section between the unflushed command and the second start is not compared"""
+    if case["kind"] != "restart" or lines is None: return lines
+    out = []; skip = False
+    for l in lines:
+        if l.startswith("mark "): skip = l == "mark pend"
+        if not skip: out.append(l)
+    return out
 
 def describe(case):
     return {"kind": case["kind"], "script": script_of(case), "yaml": simgen.yaml_files(case["cfg"])}
@@ -172,12 +201,13 @@ def evaluate(cases, res, ck=None):
             found[key] = found.get(key, 0) + 1
             if ck: ck.violation(key, {"property": "C20", "key": key, "reason": why, "case": describe(c), "implementation": il})
             elif found[key] <= 2: print("ORACLE", key, c["idx"], why[:400])
-        if il != ml:
+        if canon(c, il) != canon(c, ml):
             dis += 1
             if dis <= 3:
-                d = next((i for i, (a, b) in enumerate(zip(il, ml or [])) if a != b), min(len(il), len(ml or [])))
+                ci, cm = canon(c, il), canon(c, ml) or []
+                d = next((i for i, (a, b) in enumerate(zip(ci, cm)) if a != b), min(len(ci), len(cm)))
                 broken.append({"kind": "correspondence", "name": "corr_startup", "case": describe(c), "first_difference_at": d,
-                               "impl": il[max(0, d - 3):d + 3], "model": (ml or [])[max(0, d - 3):d + 3]})
+                               "impl": ci[max(0, d - 3):d + 3], "model": cm[max(0, d - 3):d + 3]})
         if len(samples) < 2 and nf and ni: samples.append({"script": script_of(c)[:70], "impl": il[:50]})
     return dis, evals, nontrivial, dist, samples, found, broken
 
